@@ -68,19 +68,19 @@ type HistCfg struct {
 }
 
 type Hist struct {
-	ctx   *Ctx
-	cfg   *HistCfg
-	r     *rng
-	dir   string
-	home  string
-	lines []string
-	outs  []string
-	obs   *Obs
-	g     *Ghost
-	viols []Finding
-	names []string
-	c     Case
-	stats map[string]int
+	ctx     *Ctx
+	cfg     *HistCfg
+	r       *rng
+	dir     string
+	home    string
+	lines   []string
+	outs    []string
+	obs     *Obs
+	g       *Ghost
+	viols   []Finding
+	names   []string
+	c       Case
+	stats   map[string]int
 	inProbe bool
 	past    map[string][][]byte // earlier contents of each path (to return to an earlier state)
 	derived []Derived
